@@ -3,10 +3,15 @@
 id=$1; shift
 cd /verif
 git -C /repo diff --quiet || { echo "/repo not clean"; exit 2; }
+# evidence files must describe runs on the unchanged tree only: keep them aside
+rm -rf /tmp/evidence.keep; cp -r /verif/evidence /tmp/evidence.keep
 git -C /repo apply /verif/seeded/$id/patch.diff || { echo "patch does not apply"; exit 3; }
 for c in "$@"; do
   echo "--- check $c against seeded $id"
   ./check $c --tier quick 2>&1 | grep -E "^VIOLATION|^KNOWN|^\[|^oracle|^obligation|^lane-div|^directed" | cut -c1-400
 done
 git -C /repo checkout -- .
+rm -rf /verif/evidence; mv /tmp/evidence.keep /verif/evidence
 git -C /repo status --short | head -3
+# rebuild the binaries and generated tables from the clean tree again
+(cd /verif && python3 -c "import sys; sys.path.insert(0,'.'); from vlib import core; core.run_translators()" && cd lean && lake build driver >/dev/null 2>&1; cd /verif/harness && cargo build --offline >/dev/null 2>&1)
